@@ -10,72 +10,68 @@ the exact label is absent).  The per-phase sub-streams of a multi-phase stream a
 through either side are visible on the other and they share temperature and pressure.  Saving a stream's
 data and restoring it later reproduces flows, phases, temperature and pressure exactly.
 
-The model is `ThermoVerif.Phases` (Model/Phases.lean), a store-based model (row objects, thermal-condition
-objects and view objects have ids) of the code WITH the patches `fixes_proposed/C12-1 … C12-4`.
-`legacy_phases_setter_detaches_views` shows on a concrete history that the unpatched
-`MultiStream.phases` setter (`World.toMultiLegacy`) breaks the view invariant.
+The model is `ThermoVerif.Phases` (Model/Phases.lean): a store-based model (row objects, thermal-condition
+objects, indexer objects, `_streams` dicts, view objects and the streams of a small universe have ids) of the
+conversions and of the operations that re-seat or grow the flow data under a stream's views (`unlink`,
+`link_with`, `copy_like`, `mix_from`, `_reset_thermo`, `proxy`).
 
-Vocabulary (Lemmas/Phases.lean):
-* `World.total w i`   – total flow of chemical `i`;  `World.rowAt w q i` – flow of chemical `i` in phase `q`;
-* `dest t p`          – where the material of phase `p` belongs in the phase set `t`: `p` itself if `t` has
-                        it, otherwise the other-case label if `t` has that, otherwise nowhere;
-* `Covers w t`        – `t` contains every NON-EMPTY phase of `w` up to case (the precondition of the property);
-* `RowsKept w w'`     – every phase `q` of `w'` holds exactly the sum of the phases `p` of `w` with `dest _ p = q`;
-* `Live w`            – every view in `_streams` is bound to the parent's current row for its key and to the
-                        parent's thermal-condition object; a single-phase `Stream` caches no views;
-* `WF w`              – allocation/shape discipline (distinct row objects, one row for a `Stream`, a sorted
-                        duplicate-free tuple of ≥ 2 phases for a `MultiStream`, snapshots of that shape);
-* `World.obs w`       – class, phase tuple, the flows of every phase, T, P.
+Vocabulary (Lemmas/Phases.lean), all relative to a stream index `k`:
+* `World.total w k i`  – total flow of chemical `i`;  `World.rowAt w k q i` – flow of chemical `i` in phase `q`;
+* `dest t p`           – where the material of phase `p` belongs in the phase set `t`: `p` itself if `t` has
+                         it, otherwise the other-case label if `t` has that, otherwise nowhere;
+* `Covers w k t`       – `t` contains every NON-EMPTY phase of stream `k` up to case (the precondition of the property);
+* `RowsKept w w' k`    – every phase `q` of the stream afterwards holds exactly the sum of the phases `p` before
+                         with `dest _ p = q`;
+* `LiveAt w k`         – every view in the `_streams` dict of stream `k` is bound to the stream's current row for
+                         its key and to the stream's thermal-condition object;
+* `Inv w`              – allocation discipline, different streams have different `_streams` dicts and views, streams
+                         sharing an indexer (proxies) are of the same class, and `LiveAt` for every MultiStream;
+* `WF w`               – shape discipline (distinct row objects per indexer, one row for a `Stream`, a sorted
+                         duplicate-free tuple of ≥ 2 phases for a `MultiStream`, snapshots of that shape);
+* `World.obs w k`      – class, phase tuple, the flows of every phase, T, P of stream `k`.
 -/
 namespace ThermoVerif.Props.C12
 open ThermoVerif.Phases
 
 /-! ### conversions keep totals, T, P -/
 
+theorem conversion_same {w w' : World} {op : Op} {k : Nat} (hop : op.isConversion = true)
+    (ht : op.target = some k) (h : w.step op = .ok w') : Same w w' k := by
+  have hb := (step_ok h).2
+  cases op with
+  | setPhases k' ps => cases ht; exact setPhases_same hb
+  | setPhase k' ls => cases ht; exact setPhase_same hb
+  | reduce k' => cases ht; exact reduce_same hb
+  | asStream k' => cases ht; exact asStream_same hb
+  | vle k' => cases ht; exact accessor_same hb
+  | lle k' => cases ht; exact accessor_same hb
+  | sle k' => cases ht; exact accessor_same hb
+  | _ => simp [Op.isConversion] at hop
+
 /-- `convert_totals`: every conversion (`phases=`, `phase=`, `reduce_phases`, `as_stream`, `vle`/`lle`/`sle`
-accessor) that does not raise keeps the total flow of every chemical, T and P — whatever the target set
-(so in particular for every target that contains every non-empty phase up to case). -/
-theorem convert_totals (w w' : World) (op : Op) (hop : op.isConversion = true)
-    (h : w.step op = .ok w') :
-    (∀ i, i < w.n → w'.total i = w.total i) ∧ w'.temp = w.temp ∧ w'.pres = w.pres := by
-  have : Same w w' := by
-    cases op with
-    | setPhases ps => exact setPhases_same h
-    | setPhase ls => exact setPhase_same h
-    | reduce => exact reduce_same h
-    | asStream => exact asStream_same h
-    | vle => exact accessor_same h
-    | lle => exact accessor_same h
-    | sle => exact accessor_same h
-    | _ => simp [Op.isConversion] at hop
+accessor) of stream `k` that does not raise keeps the total flow of every chemical, T and P — whatever the
+target set (so in particular for every target that contains every non-empty phase up to case). -/
+theorem convert_totals (w w' : World) (op : Op) (k : Nat) (hop : op.isConversion = true)
+    (ht : op.target = some k) (h : w.step op = .ok w') :
+    (∀ i, i < w.n → w'.total k i = w.total k i) ∧ w'.temp k = w.temp k ∧ w'.pres k = w.pres k := by
+  have := conversion_same hop ht h
   exact ⟨this.1, this.2.1, this.2.2.1⟩
 
-/-- totals, T and P survive any history made of conversions only, of any length, including raising ones -/
-theorem convert_totals_history (ops : List Op) (hops : ∀ op ∈ ops, op.isConversion = true) (w : World) :
-    (∀ i, i < w.n → (w.run ops).total i = w.total i) ∧ (w.run ops).temp = w.temp ∧
-      (w.run ops).pres = w.pres := by
-  have : Same w (w.run ops) := by
+/-- totals, T and P of stream `k` survive any history of conversions of it, of any length, raising ones included -/
+theorem convert_totals_history (k : Nat) (ops : List Op)
+    (hops : ∀ op ∈ ops, op.isConversion = true ∧ op.target = some k) (w : World) :
+    (∀ i, i < w.n → (w.run ops).total k i = w.total k i) ∧ (w.run ops).temp k = w.temp k ∧
+      (w.run ops).pres k = w.pres k := by
+  have : Same w (w.run ops) k := by
     induction ops generalizing w with
-    | nil => exact Same.refl w
+    | nil => exact Same.refl w k
     | cons op ops ih =>
-      have h1 : Same w (w.apply op) := by
+      have h1 : Same w (w.apply op) k := by
         unfold World.apply
         split
         · rename_i w' h
-          have := convert_totals w w' op (hops op (List.mem_cons_self ..)) h
-          have hn : w'.n = w.n := by
-            have hc := hops op (List.mem_cons_self ..)
-            cases op with
-            | setPhases ps => exact (setPhases_same h).2.2.2
-            | setPhase ls => exact (setPhase_same h).2.2.2
-            | reduce => exact (reduce_same h).2.2.2
-            | asStream => exact (asStream_same h).2.2.2
-            | vle => exact (accessor_same h).2.2.2
-            | lle => exact (accessor_same h).2.2.2
-            | sle => exact (accessor_same h).2.2.2
-            | _ => simp [Op.isConversion] at hc
-          exact ⟨this.1, this.2.1, this.2.2, hn⟩
-        · exact Same.refl w
+          exact conversion_same (hops op (List.mem_cons_self ..)).1 (hops op (List.mem_cons_self ..)).2 h
+        · exact Same.refl w k
       exact h1.trans (ih (fun o ho => hops o (List.mem_cons_of_mem _ ho)) (w.apply op))
   exact ⟨this.1, this.2.1, this.2.2.1⟩
 
@@ -84,32 +80,34 @@ theorem convert_totals_history (ops : List Op) (hops : ∀ op ∈ ops, op.isConv
 /-- `convert_rows`: if the phase set after a conversion contains every non-empty phase up to case, then
 every phase afterwards holds exactly the material of the phases whose destination it is, the destination
 of `p` being `p` itself when that label is present and the other-case label ONLY when it is not. -/
-theorem convert_rows (w w' : World) (op : Op) (hop : op.isConversion = true)
-    (h : w.step op = .ok w') (hcov : Covers w w'.s.phases) :
-    ∀ q ∈ w'.s.phases, ∀ i, i < w.n →
-      w'.rowAt q i = (w.s.pr.map (fun x => if dest w'.s.phases x.1 = some q then w.row x.2 i else 0)).sum := by
-  have : RowsKept w w' := by
+theorem convert_rows (w w' : World) (op : Op) (k : Nat) (hop : op.isConversion = true)
+    (ht : op.target = some k) (h : w.step op = .ok w') (hcov : Covers w k (w'.phases k)) :
+    ∀ q ∈ w'.phases k, ∀ i, i < w.n →
+      w'.rowAt k q i
+        = ((w.pr k).map (fun x => if dest (w'.phases k) x.1 = some q then w.row x.2 i else 0)).sum := by
+  have hb := (step_ok h).2
+  have : RowsKept w w' k := by
     cases op with
-    | setPhases ps => exact setPhases_rowsKept h hcov
-    | setPhase ls => exact setPhase_rowsKept h hcov
-    | reduce => exact reduce_rowsKept h hcov
-    | asStream => exact asStream_rowsKept h hcov
-    | vle => exact vle_rowsKept h hcov
-    | lle => exact lle_rowsKept h hcov
-    | sle => exact sle_rowsKept h hcov
+    | setPhases k' ps => cases ht; exact setPhases_rowsKept hb hcov
+    | setPhase k' ls => cases ht; exact setPhase_rowsKept hb hcov
+    | reduce k' => cases ht; exact reduce_rowsKept hb hcov
+    | asStream k' => cases ht; exact asStream_rowsKept hb hcov
+    | vle k' => cases ht; exact vle_rowsKept hb hcov
+    | lle k' => cases ht; exact lle_rowsKept hb hcov
+    | sle k' => cases ht; exact sle_rowsKept hb hcov
     | _ => simp [Op.isConversion] at hop
   exact this
 
 /-- `reduce_phases` ("collapsing to the phases actually present") never drops a non-empty phase: the phase
 set it chooses contains every non-empty phase up to case, so `convert_rows` applies to it unconditionally. -/
-theorem reduce_keeps_every_phase (w w' : World) (h : w.step .reduce = .ok w') :
-    Covers w w'.s.phases ∧ RowsKept w w' :=
-  ⟨reduce_covers h, reduce_rowsKept h (reduce_covers h)⟩
+theorem reduce_keeps_every_phase (w w' : World) (k : Nat) (h : w.step (.reduce k) = .ok w') :
+    Covers w k (w'.phases k) ∧ RowsKept w w' k :=
+  ⟨reduce_covers (step_ok h).2, reduce_rowsKept (step_ok h).2 (reduce_covers (step_ok h).2)⟩
 
 /-- the same for `as_stream` whenever it does not refuse (it refuses when two phase groups hold material) -/
-theorem asStream_keeps_every_phase (w w' : World) (h : w.step .asStream = .ok w') :
-    Covers w w'.s.phases ∧ RowsKept w w' :=
-  ⟨asStream_covers h, asStream_rowsKept h (asStream_covers h)⟩
+theorem asStream_keeps_every_phase (w w' : World) (k : Nat) (h : w.step (.asStream k) = .ok w') :
+    Covers w k (w'.phases k) ∧ RowsKept w w' k :=
+  ⟨asStream_covers (step_ok h).2, asStream_rowsKept (step_ok h).2 (asStream_covers (step_ok h).2)⟩
 
 /-- a phase that keeps its exact label keeps exactly its material when no other-case phase folds into it -/
 theorem dest_exact (t : List Ph) (p : Ph) (hp : p ∈ t) : dest t p = some p := dest_of_mem hp
@@ -130,9 +128,9 @@ theorem dest_fold_only_if_absent (t : List Ph) (p q : Ph) (h : dest t p = some q
 
 /-- `phases = ps` (two or more distinct target phases, not the current tuple) succeeds exactly when the
 target contains every non-empty phase up to case; to a single phase it always succeeds. -/
-theorem setPhases_ok_iff (w : World) (ps : List Ph) (hlen : 2 ≤ (phaseTuple ps).length)
-    (hnew : ¬ (w.s.multi = true ∧ phaseTuple ps = w.s.phases)) :
-    (∃ w', w.setPhases ps = .ok w') ↔ Covers w (phaseTuple ps) := by
+theorem setPhases_ok_iff (w : World) (k : Nat) (ps : List Ph) (hlen : 2 ≤ (phaseTuple ps).length)
+    (hnew : ¬ ((w.str k).multi = true ∧ phaseTuple ps = w.phases k)) :
+    (∃ w', w.setPhases k ps = .ok w') ↔ Covers w k (phaseTuple ps) := by
   constructor
   · rintro ⟨w', h⟩
     rcases setPhases_cases h with ⟨q, hq, _, _⟩ | ⟨q, hq, _, _⟩ | ⟨_, hm, he, _⟩ | ⟨_, _, h⟩
@@ -141,7 +139,7 @@ theorem setPhases_ok_iff (w : World) (ps : List Ph) (hlen : 2 ≤ (phaseTuple ps
     · exact absurd ⟨hm, he⟩ hnew
     · exact toMulti_covers h
   · intro hc
-    have hall : (w.sources.all fun s => !s.2.2 || (dest (phaseTuple ps) s.1).isSome) = true := by
+    have hall : ((w.sources k).all fun s => !s.2.2 || (dest (phaseTuple ps) s.1).isSome) = true := by
       rw [List.all_eq_true]
       intro s hs
       simp only [World.sources, List.mem_map] at hs
@@ -149,7 +147,7 @@ theorem setPhases_ok_iff (w : World) (ps : List Ph) (hlen : 2 ≤ (phaseTuple ps
       cases he : w.isEmptyRow x.2 with
       | true => simp
       | false => simp [hc x hx he]
-    have hm : ∃ w', w.toMulti (phaseTuple ps) = .ok w' := by
+    have hm : ∃ w', w.toMulti k (phaseTuple ps) = .ok w' := by
       unfold World.toMulti
       simp only [hall, if_true]
       split <;> exact ⟨_, rfl⟩
@@ -158,9 +156,9 @@ theorem setPhases_ok_iff (w : World) (ps : List Ph) (hlen : 2 ≤ (phaseTuple ps
     unfold World.setPhases
     match hp : phaseTuple ps, hlen with
     | a :: b :: rest, _ =>
-      have : (w.s.multi && (a :: b :: rest) == w.s.phases) = false := by
-        rcases Bool.eq_false_or_eq_true w.s.multi with hm | hm
-        · have : ¬ (a :: b :: rest) = w.s.phases := fun e => hnew ⟨hm, hp ▸ e⟩
+      have : ((w.str k).multi && (a :: b :: rest) == w.phases k) = false := by
+        rcases Bool.eq_false_or_eq_true (w.str k).multi with hm | hm
+        · have : ¬ (a :: b :: rest) = w.phases k := fun e => hnew ⟨hm, hp ▸ e⟩
           simp [hm, this]
         · simp [hm]
       simp only [this]
@@ -168,140 +166,174 @@ theorem setPhases_ok_iff (w : World) (ps : List Ph) (hlen : 2 ≤ (phaseTuple ps
 
 /-! ### phase views are live -/
 
-/-- `views_live`: after ANY history of operations (any length, raising operations included) every cached
-phase view refers to the parent's current row for its phase and to the parent's thermal condition. -/
-theorem views_live (ops : List Op) : Live (World.init.run ops) := run_live live_init ops
+/-- `views_live`: after ANY history of operations (any length, any kind, raising operations included) —
+conversions, view creation, writes, save/restore, `unlink`, `link_with`, `copy_like`, `mix_from` with phase
+growth, `_reset_thermo`, `proxy`, new streams — every cached phase view of every MultiStream of the universe
+refers to that stream's current row for its phase and to its thermal condition. -/
+theorem views_live (ops : List Op) (k : Nat)
+    (hk : k < (World.init.run ops).nStr) (hm : ((World.init.run ops).str k).multi = true) :
+    LiveAt (World.init.run ops) k :=
+  (run_inv inv_init ops).live k hk hm
 
-/-- the same from any state in which the views are live -/
-theorem views_live_from (w : World) (hl : Live w) (ops : List Op) : Live (w.run ops) := run_live hl ops
+/-- the same from any state that satisfies the invariant -/
+theorem views_live_from (w : World) (hi : Inv w) (ops : List Op) : Inv (w.run ops) := run_inv hi ops
 
-/-- a write through a cached view is what the parent reads at that phase -/
-theorem write_through_view_visible (w : World) (hl : Live w) (c : Ph × Nat) (hc : c ∈ w.s.cache)
-    (i : Nat) (x : Rat) :
-    ∃ w', w.step (.wView c.2 i x) = .ok w' ∧ ∃ r, lookupRow w'.s.pr c.1 = some r ∧ w'.row r i = x := by
-  obtain ⟨h1, _, _, h4⟩ := hl.cached c hc
-  refine ⟨w.writeRow (w.view c.2).row i x, by simp [World.step, World.writeView, h1], (w.view c.2).row, h4, ?_⟩
-  simp [World.writeRow]
+/-- a proxy shows what its original shows (it is the same indexer and thermal condition) -/
+theorem proxy_shows_original (w w' : World) (k : Nat) (h : w.step (.proxy k) = .ok w') :
+    w'.obs w.nStr = w.obs k ∧ w'.nStr = w.nStr + 1 :=
+  proxy_obs (step_ok h).2
 
-/-- a write through the parent at a phase is what the cached view of that phase reads -/
-theorem write_through_parent_visible (w : World) (hl : Live w) (c : Ph × Nat) (hc : c ∈ w.s.cache)
-    (i : Nat) (x : Rat) :
-    ∃ w', w.step (.wPar (some c.1) i x) = .ok w' ∧ w'.row (w'.view c.2).row i = x := by
-  obtain ⟨_, _, _, h4⟩ := hl.cached c hc
-  have hm : w.s.multi = true := by
-    cases hm : w.s.multi with
-    | true => rfl
-    | false => rw [hl.single hm] at hc; cases hc
-  refine ⟨w.writeRow (w.view c.2).row i x, by simp [World.step, World.writePar, hm, h4], ?_⟩
-  simp [World.writeRow]
+/-- a write through a cached view is what the stream reads at that phase -/
+theorem write_through_view_visible (w : World) (k : Nat) (hl : LiveAt w k) (hv : ∀ e ∈ w.cacheOf k, e.2 < w.nView)
+    (c : Ph × Nat) (hc : c ∈ w.cacheOf k) (i : Nat) (x : Rat) :
+    ∃ w', w.step (.wView c.2 i x) = .ok w' ∧ ∃ r, lookupRow (w'.pr k) c.1 = some r ∧ w'.row r i = x := by
+  obtain ⟨_, _, h4⟩ := hl c hc
+  refine ⟨w.writeRow (w.view c.2).row i x, ?_, (w.view c.2).row, h4, ?_⟩
+  · simp [World.step, Op.inBounds, Op.target, Op.reads, World.body, World.writeView, hv c hc]
+  · simp [World.writeRow]
 
-/-- T and P are shared: setting them through a cached view or through the parent is the same write -/
-theorem view_shares_TP (w : World) (hl : Live w) (c : Ph × Nat) (hc : c ∈ w.s.cache) (x : Rat) :
-    w.step (.wvT c.2 x) = w.step (.wT x) ∧ w.step (.wvP c.2 x) = w.step (.wP x) := by
-  obtain ⟨h1, _, h3, _⟩ := hl.cached c hc
-  simp [World.step, h1, h3]
+/-- a write through the stream at a phase is what the cached view of that phase reads -/
+theorem write_through_parent_visible (w : World) (k : Nat) (hk : k < w.nStr) (hm : (w.str k).multi = true)
+    (hl : LiveAt w k) (c : Ph × Nat) (hc : c ∈ w.cacheOf k) (i : Nat) (x : Rat) :
+    ∃ w', w.step (.wPar k (some c.1) i x) = .ok w' ∧ w'.row (w'.view c.2).row i = x := by
+  obtain ⟨_, _, h4⟩ := hl c hc
+  refine ⟨w.writeRow (w.view c.2).row i x, ?_, ?_⟩
+  · simp [World.step, Op.inBounds, Op.target, Op.reads, World.body, World.writePar, hm, h4, hk]
+  · simp [World.writeRow]
 
-/-- `ms = MultiStream(phases=(g,l)); ms['l']` -/
-def legacyWorld : World := World.init.run [.newM [.g, .l] 300 101325 [], .view .l]
+/-- T and P are shared: setting them through a cached view or through the stream is the same write -/
+theorem view_shares_TP (w : World) (k : Nat) (hk : k < w.nStr) (hl : LiveAt w k)
+    (hv : ∀ e ∈ w.cacheOf k, e.2 < w.nView) (c : Ph × Nat) (hc : c ∈ w.cacheOf k) (x : Rat) :
+    w.step (.wvT c.2 x) = w.step (.wT k x) ∧ w.step (.wvP c.2 x) = w.step (.wP k x) := by
+  obtain ⟨_, h3, _⟩ := hl c hc
+  simp [World.step, Op.inBounds, Op.target, Op.reads, World.body, hv c hc, h3, hk]
 
-/-- The unpatched `MultiStream.phases` setter (defect #7): `ms = MultiStream(phases=(g,l)); ms['l'];
-ms.phases = (g,l,s)` leaves the cached view of `'l'` bound to the pre-change row. -/
+/-! counterexamples: what the setters did before they re-seated the views -/
+
+/-- `a = MultiStream(phases=(g,l)); a['l']` -/
+def viewWorld : World := World.init.run [.newM [.g, .l] 300 101325 [], .view 0 .l]
+
+/-- The `MultiStream.phases` setter before commit bab44aa (defect #7): `a.phases = (g,l,s)` leaves the cached
+view of `'l'` bound to the pre-change row. -/
 theorem legacy_phases_setter_detaches_views :
-    ∃ w w', Live w ∧ w.toMultiLegacy [.g, .l, .s] = .ok w' ∧ ¬ Live w' := by
-  have hall : (legacyWorld.sources.all fun s => !s.2.2 || (dest [.g, .l, .s] s.1).isSome) = true := by
+    ∃ w', viewWorld.toMultiLegacy 0 [.g, .l, .s] = .ok w' ∧ ¬ LiveAt w' 0 := by
+  have hall : ((viewWorld.sources 0).all fun s => !s.2.2 || (dest [.g, .l, .s] s.1).isSome) = true := by
     decide
-  have hok : ∃ w', legacyWorld.toMultiLegacy [.g, .l, .s] = .ok w' := by
+  have hok : ∃ w', viewWorld.toMultiLegacy 0 [.g, .l, .s] = .ok w' := by
     unfold World.toMultiLegacy
     simp only [hall, if_true]
     exact ⟨_, rfl⟩
   obtain ⟨w', hw'⟩ := hok
-  refine ⟨legacyWorld, w', run_live live_init _, hw', ?_⟩
+  refine ⟨w', hw', ?_⟩
   intro hl
   unfold World.toMultiLegacy at hw'
   simp only [hall, if_true] at hw'
   injection hw' with hw'
   subst hw'
-  have := (hl.cached (.l, 0) (by decide)).2.2.2
+  have := (hl (.l, 0) (by decide)).2.2
+  revert this
+  decide
+
+/-- `b = MultiStream(phases=(g,l))` next to `a` -/
+def linkWorld : World := World.init.run [.newM [.g, .l] 300 101325 [], .view 0 .l, .newM [.g, .l] 350 90000 []]
+
+/-- `link_with` before commit d9738d9 (defect C12-5): after `a.link_with(b)` the cached view of `a['l']` is
+still bound to `a`'s old row and old thermal condition. -/
+theorem legacy_link_detaches_views : ¬ LiveAt (linkWorld.linkLegacy 0 1 true true) 0 := by
+  intro hl
+  have := (hl (.l, 0) (by decide)).2.1
   revert this
   decide
 
 /-! ### save / restore -/
 
-/-- `save_restore`: `set_data (get_data s)` — also after ARBITRARY intervening operations (any number,
-of any kind, raising ones included) — never raises and reproduces class, phases, the flows of every phase,
-T and P exactly. -/
-theorem save_restore (w : World) (hw : WF w) (ops : List Op) :
-    ∃ w', (w.save.run ops).restore w.snaps.length = .ok w' ∧ w'.obs = w.obs := by
-  have hwf : WF (w.save.run ops) := run_wf (save_wf hw) ops
-  obtain ⟨l, hl⟩ := run_snaps w.save ops
-  have hk : (w.save.run ops).snaps[w.snaps.length]? = some w.snapshot := by
+/-- `save_restore`: `s.set_data(s.get_data())` — also after ARBITRARY intervening operations (any number,
+of any kind, on any stream, raising ones included) — never raises and reproduces class, phases, the flows of
+every phase, T and P exactly. -/
+theorem save_restore (w : World) (hw : WF w) (k : Nat) (hk : k < w.nStr) (ops : List Op) :
+    ∃ w', ((w.save k).run ops).restore k w.snaps.length = .ok w' ∧ w'.obs k = w.obs k := by
+  have hws : WF (w.save k) := by
+    have : (w.save k) = w.apply (.save k) := by
+      simp [World.apply, World.step, Op.inBounds, Op.target, Op.reads, World.body, hk]
+    rw [this]; exact apply_wf hw _
+  have hwf : WF ((w.save k).run ops) := run_wf hws ops
+  obtain ⟨hle, l, hl⟩ := run_mono (w.save k) ops
+  have hk' : k < ((w.save k).run ops).nStr := Nat.lt_of_lt_of_le hk hle
+  have hidx : ((w.save k).run ops).snaps[w.snaps.length]? = some (w.snapshot k) := by
     rw [hl]; simp [World.save]
-  obtain ⟨w', h1, h2⟩ := restore_spec hwf hk
+  obtain ⟨w', h1, h2⟩ := restore_spec hwf hk' hidx
   refine ⟨w', h1, ?_⟩
   rw [h2]
-  have hmulti : decide (2 ≤ w.s.phases.length) = w.s.multi := by
-    cases hm : w.s.multi with
-    | false =>
-      obtain ⟨x, hx⟩ := hw.single hm
-      simp [Strm.phases, hx]
-    | true =>
-      have := (hw.multi hm).2
-      simpa [Strm.phases] using this
+  have hmulti : decide (2 ≤ (w.phases k).length) = (w.str k).multi := by
+    rw [phases_length]; exact (hw.kind k hk).symm
   simp only [World.obs]
   rw [Obs.mk.injEq]
   exact ⟨hmulti, rfl, rfl, rfl, rfl⟩
 
-/-- the same for every state reachable from the initial one: any history, a save, any history, the restore -/
-theorem save_restore_reachable (before between : List Op) :
+/-- the same for every state reachable from the empty universe: any history, a save, any history, the restore -/
+theorem save_restore_reachable (before between : List Op) (k : Nat)
+    (hk : k < (World.init.run before).nStr) :
     let w := World.init.run before
-    ∃ w', (w.save.run between).restore w.snaps.length = .ok w' ∧ w'.obs = w.obs :=
-  save_restore _ (run_wf wf_init before) between
+    ∃ w', ((w.save k).run between).restore k w.snaps.length = .ok w' ∧ w'.obs k = w.obs k :=
+  save_restore _ (run_wf wf_init before) k hk between
 
-/-- the invariants hold along every history -/
+/-- the shape invariant holds along every history (proxies included) -/
 theorem wf_history (ops : List Op) : WF (World.init.run ops) := run_wf wf_init ops
+
+/-! ### the re-seating operations keep what the stream shows -/
+
+/-- `unlink` gives the stream its own objects and changes nothing it shows -/
+theorem unlink_keeps (w w' : World) (k : Nat) (h : w.step (.unlink k) = .ok w') : w'.obs k = w.obs k :=
+  unlink_obs (step_ok h).2
+
+/-- `_reset_thermo` to an equal-order package changes nothing the stream shows -/
+theorem reset_thermo_keeps (w w' : World) (k t : Nat) (h : w.step (.resetThermo k t) = .ok w') :
+    w'.obs k = w.obs k :=
+  resetThermo_obs (step_ok h).2
 
 /-! ### non-vacuity -/
 
-/-- a two-phase liquid stream, a view of each phase, then the phase set is changed -/
+/-- a two-phase liquid stream with a view of each phase, a second stream, and a history through every
+re-seating operation -/
 def demoOps : List Op :=
   [ .newM [.L, .l] 300 101325 [(.L, fun i => if i = 0 then 1 else 0), (.l, fun i => if i = 1 then 2 else 0)],
-    .view .l, .view .L ]
+    .view 0 .l, .view 0 .L,
+    .newM [.L, .g, .l] 350 90000 [(.g, fun i => if i = 2 then 5 else 0)],
+    .copyLike 0 1, .mixFrom 0 [0, 1], .link 1 0 true true, .unlink 1, .resetThermo 0 1, .proxy 0,
+    .setPhases 0 [.L, .g, .l, .s], .view 2 .g ]
 
-/-- `convert_rows` / `convert_totals` apply to a real conversion with case folding:
-(L: water, l: ethanol) → phases (g, l) succeeds, and the target covers both non-empty phases. -/
-example : ∃ w', (World.init.run demoOps).step (.setPhases [.g, .l]) = .ok w' ∧
-    Covers (World.init.run demoOps) w'.s.phases ∧ w'.s.phases = [.g, .l] ∧ w'.s.cache.length = 2 := by
-  have hc : Covers (World.init.run demoOps) (phaseTuple [.g, .l]) := by
+/-- `views_live` speaks about non-empty caches after a history with phase growth, link, unlink, reset_thermo
+and a proxy: stream 0 is a MultiStream over four phases with two cached views, its proxy (stream 2) has one -/
+example : (World.init.run demoOps).nStr = 3 ∧ ((World.init.run demoOps).cacheOf 2).length = 1 ∧ ((World.init.run demoOps).str 0).multi = true ∧
+    ((World.init.run demoOps).cacheOf 0).length = 2 ∧ (World.init.run demoOps).phases 0 = [.L, .g, .l, .s] := by
+  decide +kernel
+
+/-- `convert_rows` / `convert_totals` apply to a real conversion with case folding -/
+example : ∃ w', (World.init.run (demoOps.take 3)).step (.setPhases 0 [.g, .l]) = .ok w' ∧
+    Covers (World.init.run (demoOps.take 3)) 0 (w'.phases 0) ∧ w'.phases 0 = [.g, .l] := by
+  have hc : Covers (World.init.run (demoOps.take 3)) 0 (phaseTuple [.g, .l]) := by
     intro x hx _
     have : x.1 = .L ∨ x.1 = .l := by
-      have : x.1 ∈ (World.init.run demoOps).s.phases := List.mem_map.2 ⟨x, hx, rfl⟩
-      have hp : (World.init.run demoOps).s.phases = [.L, .l] := by decide
+      have : x.1 ∈ (World.init.run (demoOps.take 3)).phases 0 := List.mem_map.2 ⟨x, hx, rfl⟩
+      have hp : (World.init.run (demoOps.take 3)).phases 0 = [.L, .l] := by decide
       rw [hp] at this
       simpa using this
     rcases this with h | h <;> rw [h] <;> decide
-  have hnew : ¬ ((World.init.run demoOps).s.multi = true ∧
-      phaseTuple [.g, .l] = (World.init.run demoOps).s.phases) := by decide
-  obtain ⟨w', hw'⟩ := (setPhases_ok_iff _ [.g, .l] (by decide) hnew).2 hc
-  rcases setPhases_cases hw' with ⟨q, hq, _, _⟩ | ⟨q, hq, _, _⟩ | ⟨_, hm, he, _⟩ | ⟨_, _, h⟩
-  · have := congrArg List.length hq; simp [phaseTuple, Ph.all] at this
-  · have := congrArg List.length hq; simp [phaseTuple, Ph.all] at this
-  · exact absurd ⟨hm, he⟩ hnew
-  · have hph := toMulti_phases h
-    refine ⟨w', hw', hph ▸ hc, hph, ?_⟩
-    unfold World.toMulti at h
-    simp only [] at h
-    split at h
-    · split at h
-      · injection h with h
-        rw [← h]
-        decide
-      · rename_i hm; exact absurd (by decide) hm
-    · cases h
+  have hnew : ¬ (((World.init.run (demoOps.take 3)).str 0).multi = true ∧
+      phaseTuple [.g, .l] = (World.init.run (demoOps.take 3)).phases 0) := by decide
+  obtain ⟨w', hw'⟩ := (setPhases_ok_iff _ 0 [.g, .l] (by decide) hnew).2 hc
+  have hph : w'.phases 0 = [.g, .l] := by
+    rcases setPhases_cases hw' with ⟨q, hq, _, _⟩ | ⟨q, hq, _, _⟩ | ⟨_, hm, he, _⟩ | ⟨_, _, h⟩
+    · have := congrArg List.length hq; simp [phaseTuple, Ph.all] at this
+    · have := congrArg List.length hq; simp [phaseTuple, Ph.all] at this
+    · exact absurd ⟨hm, he⟩ hnew
+    · exact toMulti_phases h
+  refine ⟨w', ?_, hph ▸ hc, hph⟩
+  have hb : (Op.setPhases 0 [.g, .l]).inBounds (World.init.run (demoOps.take 3)).nStr = true := by decide
+  simp only [World.step, hb, if_true, World.body]
+  exact hw'
 
 /-- the hypotheses of `save_restore` hold after any history -/
-example : WF (World.init.run (demoOps ++ [.setPhases [.g, .l], .save, .vle])) := wf_history _
-
-/-- `views_live` speaks about a non-empty cache -/
-example : (World.init.run demoOps).s.cache.length = 2 := by decide
+example : WF (World.init.run (demoOps ++ [.save 0, .vle 0, .proxy 0])) := wf_history _
 
 end ThermoVerif.Props.C12
